@@ -55,9 +55,11 @@ package guts_cli
 //@   ensures [active] err == nil ==> id == (grtxid[0] < grtxid[1] ? 1 : 0)
 //@   ensures [meta] err == nil ==> m != nil && m.txid == (grtxid[0] < grtxid[1] ? grtxid[1] : grtxid[0]) && m.root.root == (grtxid[0] < grtxid[1] ? grroot[1] : grroot[0])
 //@   ensures [nowrite] fwcount == old(fwcount)
+//@   ensures [stable] err == nil ==> grtxid[0] == ftxid(0, fwcount) && grtxid[1] == ftxid(1, fwcount) && grroot[0] == froot(0, fwcount) && grroot[1] == froot(1, fwcount)
 
 //@ func GetRootPage
 //@   returns (root, activeMeta, err)
 //@   props C20
 //@   ensures [active] err == nil ==> activeMeta == (grtxid[0] < grtxid[1] ? 1 : 0) && root == (grtxid[0] < grtxid[1] ? grroot[1] : grroot[0])
 //@   ensures [nowrite] fwcount == old(fwcount)
+//@   ensures [stable] err == nil ==> grtxid[0] == ftxid(0, fwcount) && grtxid[1] == ftxid(1, fwcount) && grroot[0] == froot(0, fwcount) && grroot[1] == froot(1, fwcount)
